@@ -399,4 +399,20 @@ theorem first_message_decides (verify : Verify) (p : Proto) (hp : p ≠ .beacon)
       · exact hm
       · exact hm
 
+/-- `support_entry_verifies_for_seat_holder` (all three protocols, in particular the tbtc path; operators
+    holding several seats included): every entry `(seat, signature)` of the map handed to the submitter,
+    other than the member's own, carries a signature that ITSELF verifies over the preferred hash under
+    a key whose chain address holds exactly that seat.  A verdict obtained for another signature of the
+    same operator (C13-w2) or a membership confirmed for another seat of the same key (C13-w3) cannot
+    justify an entry. -/
+theorem support_entry_verifies_for_seat_holder (addr : Nat → Nat) (verify : Verify) (p : Proto) (c : Ctx)
+    (g : Params) (selfSig pref : Nat) (hist : List Msg) (hn : c.ops.length ≤ 255) (e : UInt8 × Nat)
+    (h : e ∈ (pipeline addr verify p c g selfSig pref hist).1) (hne : e.1 ≠ selfIdx c) :
+    ∃ key, 1 ≤ e.1.toNat ∧ e.1.toNat ≤ c.ops.length ∧ c.ops[e.1.toNat - 1]? = some (addr key) ∧
+      verify pref e.2 key = true := by
+  obtain ⟨m, _, h1, h2, _, hv, _, h6, h7⟩ := support_sound addr verify p c g selfSig pref hist e h hne
+  have := (valid_membership_iff c.ops m.idx (addr m.netKey) hn).1 hv
+  rw [h1] at this
+  exact ⟨m.netKey, this.1, this.2.1, this.2.2, by rw [← h6, ← h2]; exact h7⟩
+
 end KeepVerif.C13
